@@ -17,9 +17,15 @@ type Cache struct {
 
 // clientEntries holds entries of client details sent to the service.
 type clientEntries struct {
-	replayMap map[time.Time]replayCacheEntry
+	replayMap map[replayKey]replayCacheEntry
 	seqNumber int64
 	subKey    types.EncryptionKey
+}
+
+// replayKey identifies an authenticator of a client: its client time and the service it was presented to.
+type replayKey struct {
+	cTime time.Time
+	sName string
 }
 
 // Cache entry tracking client time values of tickets sent to the service.
@@ -34,17 +40,6 @@ func (c *Cache) getClientEntries(cname types.PrincipalName) (clientEntries, bool
 	defer c.mux.RUnlock()
 	ce, ok := c.entries[cname.PrincipalNameString()]
 	return ce, ok
-}
-
-func (c *Cache) getClientEntry(cname types.PrincipalName, t time.Time) (replayCacheEntry, bool) {
-	if ce, ok := c.getClientEntries(cname); ok {
-		c.mux.RLock()
-		defer c.mux.RUnlock()
-		if e, ok := ce.replayMap[t]; ok {
-			return e, true
-		}
-	}
-	return replayCacheEntry{}, false
 }
 
 // Instance of the ServiceCache. This needs to be a singleton.
@@ -80,7 +75,7 @@ func (c *Cache) AddEntry(sname types.PrincipalName, a types.Authenticator) {
 func (c *Cache) addEntry(sname types.PrincipalName, a types.Authenticator) {
 	ct := a.CTime.Add(time.Duration(a.Cusec) * time.Microsecond)
 	if ce, ok := c.entries[a.CName.PrincipalNameString()]; ok {
-		ce.replayMap[ct] = replayCacheEntry{
+		ce.replayMap[replayKey{ct, sname.PrincipalNameString()}] = replayCacheEntry{
 			presentedTime: time.Now().UTC(),
 			sName:         sname,
 			cTime:         ct,
@@ -89,8 +84,8 @@ func (c *Cache) addEntry(sname types.PrincipalName, a types.Authenticator) {
 		ce.subKey = a.SubKey
 	} else {
 		c.entries[a.CName.PrincipalNameString()] = clientEntries{
-			replayMap: map[time.Time]replayCacheEntry{
-				ct: {
+			replayMap: map[replayKey]replayCacheEntry{
+				{ct, sname.PrincipalNameString()}: {
 					presentedTime: time.Now().UTC(),
 					sName:         sname,
 					cTime:         ct,
@@ -125,7 +120,7 @@ func (c *Cache) IsReplay(sname types.PrincipalName, a types.Authenticator) bool 
 	c.mux.Lock()
 	defer c.mux.Unlock()
 	if ce, ok := c.entries[a.CName.PrincipalNameString()]; ok {
-		if e, ok := ce.replayMap[ct]; ok && e.sName.Equal(sname) {
+		if _, ok := ce.replayMap[replayKey{ct, sname.PrincipalNameString()}]; ok {
 			return true
 		}
 	}
